@@ -189,6 +189,9 @@ func genMutants(repo string, files []string, ranges map[string][][2]int, max int
 					case *ast.IncDecStmt, *ast.GoStmt, *ast.DeferStmt, *ast.SendStmt:
 						counts["del-stmt"]++
 					}
+					if dupable(st) {
+						counts["dup-stmt"]++
+					}
 					if _, ok := st.(*ast.GoStmt); ok {
 						counts["go-inline"]++
 					}
@@ -364,7 +367,19 @@ func genMutants(repo string, files []string, ranges map[string][][2]int, max int
 								}
 							}
 						}
-						if kind == "del-stmt" || kind == "go-inline" {
+						if kind == "dup-stmt" {
+						for k, st := range *bl {
+							if dupable(st) && hit() {
+								desc = fmt.Sprintf("%s:%d statement executed twice", rel, fs.Position(st.Pos()).Line)
+								nl := append([]ast.Stmt{}, (*bl)[:k+1]...)
+								nl = append(nl, st)
+								nl = append(nl, (*bl)[k+1:]...)
+								*bl = nl
+								break
+							}
+						}
+					}
+					if kind == "del-stmt" || kind == "go-inline" {
 							for k, st := range *bl {
 								_, isGo := st.(*ast.GoStmt)
 								ok := false
@@ -475,6 +490,25 @@ func genMutants(repo string, files []string, ranges map[string][][2]int, max int
 	}
 	sort.Slice(all, func(i, j int) bool { return all[i].desc < all[j].desc })
 	return all
+}
+
+// dupable: statements whose repetition is a plausible slip and compiles: calls, sends, ++/--, compound assignments,
+// go statements (a := declaration would not compile twice, a plain assignment twice is idempotent)
+func dupable(st ast.Stmt) bool {
+	switch x := st.(type) {
+	case *ast.ExprStmt:
+		_, ok := x.X.(*ast.CallExpr)
+		return ok
+	case *ast.IncDecStmt, *ast.SendStmt, *ast.GoStmt:
+		return true
+	case *ast.AssignStmt:
+		if x.Tok == token.ASSIGN && len(x.Rhs) == 1 {
+			_, isCall := x.Rhs[0].(*ast.CallExpr) // x = append(x, v), n.root = n.root.add(v): twice is not once
+			return isCall
+		}
+		return x.Tok != token.ASSIGN && x.Tok != token.DEFINE
+	}
+	return false
 }
 
 // stmtList: the statement list of a block, case clause or select clause
